@@ -160,7 +160,7 @@ def worker(job):
 
 def main(chk, tier, seed):
     chk.rule = RULE
-    n = 15000 if tier == "quick" else 100000
+    n = 15000 if tier == "quick" else 500000
     common.run_chunked(chk, "c31", n, nchunks=16 if tier == "quick" else 64, timeout=3000)
     chk.inconclusive_if(len(chk.extra.get("index_kinds", {})) < 4, "not all index kinds exercised")
 
